@@ -74,7 +74,7 @@ Lemma kn10_apply_loop rem m : forall s, known (apply_loop rem s m) = known s.
 Proof.
   induction rem as [|r IH]; intros s; simpl.
   - destruct (get_m s m); auto. autorewrite with fr. reflexivity.
-  - destruct (get_m s m) as [x|]; auto. destruct (m_bad x).
+  - destruct (get_m s m) as [x|]; auto. destruct (nth (m_idx x) (m_bad x) false).
     + rewrite IH. reflexivity.
     + pose proof (kn10_try_start s m x) as H1.
       destruct (try_start s m x) as [s' cont]. cbn [fst] in H1. destruct cont; auto.
